@@ -135,25 +135,34 @@ def check_common(F, rep):
     arm_args = {}
     for cname, (helper, fields) in ARMS.items():
         K = cval(F, cname)
-        sites = [c for c in an.calls() if c.callee_qual == helper and any(f[0] == "eq" and f[2] == K and f[1].op == "proj" and f[1].args[1][2] == "sh_type" for f in c.facts)]
-        if len(sites) != 1:
-            rep.bad("common-data", "arm:%s" % cname, w, "find_common_data does not call %s exactly once under sh_type == %s (found %d)" % (helper, cname, len(sites)))
-            continue
-        cs = sites[0]
-        a = tuple(item_abstract(norm(x)) for x in cs.arg_values())
-        arm_args[cname] = (helper, a)
-        # which result fields receive values derived from this call
-        got = set()
+        # value-based (the constructor may be reached through a private helper or be passed to one as a function): the result fields
+        # written under sh_type == K hold a value built from exactly one call of `helper`
+        under_k = lambda facts: any(f[0] == "eq" and f[2] == K and f[1].op == "proj" and f[1].args[1][2] == "sh_type" for f in facts)
+        hcalls, got = [], set()
         for b, env in an.exit_env.items():
-            if not an.dominates(cs.block, b):
-                continue
-            if not any(f[0] == "eq" and f[2] == K and f[1].op == "proj" and f[1].args[1][2] == "sh_type" for f in an.exit_facts.get(b, ())):
+            if b not in an.entry or not under_k(an.exit_facts.get(b, ())):
                 continue
             for (root, path), val in env.items():
-                if root[0] == "L" and len(path) == 1 and path[0][0] == "f" and val.mentions(cs.result):
-                    got.add(path[0][2])
-        rep.require(got == fields, "common-data", "arm:%s" % cname, cs.where(), "%s -> %s stored in %s" % (cname, helper.split("::")[-2] + "::" + helper.split("::")[-1], sorted(fields)),
+                if root[0] == "L" and len(path) == 1 and path[0][0] == "f":
+                    val = an.simp(val, an.exit_facts.get(b, frozenset()))
+                    for x in val.subterms():
+                        if x.op == "call" and x.args[0] == helper:
+                            if x not in hcalls:
+                                hcalls.append(x)
+                            got.add(path[0][2])
+        if len(hcalls) != 1:
+            rep.bad("common-data", "arm:%s" % cname, w, "find_common_data does not call %s exactly once under sh_type == %s (found %d)" % (helper, cname, len(hcalls)))
+            continue
+        hc = hcalls[0]
+        cs_where = w
+        for c in an.calls():
+            if c.callee_qual == helper:
+                cs_where = c.where()
+        a = tuple(item_abstract(norm(x)) for x in hc.args[2])
+        arm_args[cname] = (helper, a)
+        rep.require(got == fields, "common-data", "arm:%s" % cname, cs_where, "%s -> %s stored in %s" % (cname, helper.split("::")[-2] + "::" + helper.split("::")[-1], sorted(fields)),
                     "under sh_type == %s the result of %s is stored in %s, expected %s" % (cname, helper, sorted(got), sorted(fields)))
+        cs = type("S", (), {"where": staticmethod(lambda: cs_where)})()
         # argument provenance of the arm
         me = P(1)
         ehdr = F_(me, "ehdr")
